@@ -27,13 +27,21 @@ def run(cmd, cwd, env=ENV, timeout=3600):
 
 
 def main():
-    prop, n, demo, place, pkg, regex = sys.argv[1:7]
+    # Short form: seedcheck.py <PROP> <n> --wt=<worktree> reads seeded/<n>/run.json.
+    wt_arg = [a.split("=", 1)[1] for a in sys.argv if a.startswith("--wt=")]
+    pos = [a for a in sys.argv[1:] if not a.startswith("--")]
+    if len(pos) == 2:
+        prop, n = pos
+        rj = json.load(open(os.path.join(wt_arg[0] if wt_arg else f"/tmp/seed-{prop}", "seeded", n, "run.json")))
+        demo, place, pkg, regex = rj["demo_file"], rj["place_at"], rj["package"], rj["run"]
+    else:
+        prop, n, demo, place, pkg, regex = pos[:6]
     skip_suite = "--skip-suite" in sys.argv
     tier = "quick"
     for a in sys.argv:
         if a.startswith("--tier="):
             tier = a.split("=")[1]
-    wt = f"/tmp/seed-{prop}"
+    wt = wt_arg[0] if wt_arg else f"/tmp/seed-{prop}"
     sd = os.path.join(wt, "seeded", n)
     patch = os.path.join(sd, "patch.diff")
     meta = {"property": prop, "seed": n, "worktree_base": subprocess.check_output(["git", "-C", wt, "rev-parse", "--short", "HEAD"], text=True).strip(), "ran": []}
@@ -66,7 +74,7 @@ def main():
     assert rc_without == 0, "demonstration fails WITHOUT the change:\n" + out_without[-2000:]
     # Our check against the changed tree.
     run(["git", "apply", patch], wt)
-    work = f"/tmp/seed-{prop}-work"
+    work = wt + "-work"
     env = dict(os.environ, VERIF_REPO=wt, VERIF_WORK=work)
     t0 = time.time()
     rc, out = run([os.path.join(ROOT, "vcheck"), prop, tier], ROOT, env=env, timeout=3000)
